@@ -1,5 +1,7 @@
 use crate::{
-    bytecompiler::{Access, BindingAccessOpcode, ByteCompiler, Label, Register, ToJsString},
+    bytecompiler::{
+        Access, BindingAccessOpcode, BindingKind, ByteCompiler, Label, Register, ToJsString,
+    },
     vm::opcode::BindingOpcode,
 };
 use boa_ast::{
@@ -40,7 +42,8 @@ impl ByteCompiler<'_> {
             let emit = |compiler: &mut Self,
                         dst: &Register,
                         expr: &Expression,
-                        op: AssignOp|
+                        op: AssignOp,
+                        late_locator: Option<&BindingKind>|
              -> Option<Label> {
                 if short_circuit {
                     let next = compiler.next_opcode_location();
@@ -55,6 +58,11 @@ impl ByteCompiler<'_> {
                             .bytecode
                             .emit_coalesce(Self::DUMMY_ADDRESS, dst.variable()),
                         _ => unreachable!(),
+                    }
+                    // The reference is only pushed on the path that assigns, so that the
+                    // short-circuit exit leaves no binding locator behind.
+                    if let Some(index) = late_locator {
+                        compiler.emit_binding_access(BindingAccessOpcode::GetLocator, index, dst);
                     }
                     compiler.compile_expr(expr, dst);
                     Some(Label { index: next })
@@ -141,7 +149,7 @@ impl ByteCompiler<'_> {
                     let is_lexical = binding.is_lexical();
                     let index = compiler.get_binding(&binding);
 
-                    if is_lexical {
+                    if is_lexical || short_circuit {
                         compiler.emit_binding_access(BindingAccessOpcode::GetName, &index, dst);
                     } else {
                         compiler.emit_binding_access(
@@ -151,7 +159,13 @@ impl ByteCompiler<'_> {
                         );
                     }
 
-                    early_exit = emit(&mut compiler, dst, assign.rhs(), assign.op());
+                    early_exit = emit(
+                        &mut compiler,
+                        dst,
+                        assign.rhs(),
+                        assign.op(),
+                        (!is_lexical && short_circuit).then_some(&index),
+                    );
 
                     if is_lexical {
                         match compiler.lexical_scope.set_mutable_binding(name.clone()) {
@@ -185,7 +199,7 @@ impl ByteCompiler<'_> {
 
                             compiler.emit_get_property_by_name(dst, None, &object, name.sym());
 
-                            early_exit = emit(&mut compiler, dst, assign.rhs(), assign.op());
+                            early_exit = emit(&mut compiler, dst, assign.rhs(), assign.op(), None);
 
                             compiler.emit_set_property_by_name(dst, None, &object, name.sym());
 
@@ -205,7 +219,7 @@ impl ByteCompiler<'_> {
                                 object.variable(),
                             );
 
-                            early_exit = emit(&mut compiler, dst, assign.rhs(), assign.op());
+                            early_exit = emit(&mut compiler, dst, assign.rhs(), assign.op(), None);
 
                             compiler.bytecode.emit_set_property_by_value(
                                 dst.variable(),
@@ -230,7 +244,7 @@ impl ByteCompiler<'_> {
                             index.into(),
                         );
 
-                        early_exit = emit(&mut compiler, dst, assign.rhs(), assign.op());
+                        early_exit = emit(&mut compiler, dst, assign.rhs(), assign.op(), None);
 
                         compiler.bytecode.emit_set_private_field(
                             dst.variable(),
@@ -253,7 +267,7 @@ impl ByteCompiler<'_> {
                                 name.sym(),
                             );
 
-                            early_exit = emit(&mut compiler, dst, assign.rhs(), assign.op());
+                            early_exit = emit(&mut compiler, dst, assign.rhs(), assign.op(), None);
 
                             compiler.emit_set_property_by_name(
                                 dst,
@@ -280,7 +294,7 @@ impl ByteCompiler<'_> {
                                 object.variable(),
                             );
 
-                            early_exit = emit(&mut compiler, dst, assign.rhs(), assign.op());
+                            early_exit = emit(&mut compiler, dst, assign.rhs(), assign.op(), None);
 
                             compiler.bytecode.emit_set_property_by_value(
                                 dst.variable(),
